@@ -40,7 +40,7 @@ def plan(tier):
 def required(tier):
     return ["post:add_edge", "order_files_judged", "roundtrips_judged", "colon_in_Z_value", "tagless_link",
             "self_link", "both_end_declaration", "with_sequence_runs", "without_sequence_runs",
-            "complete_file_runs", "by_chrom_runs", "csv_rows_judged", "digit_in_tag_name"]
+            "complete_file_runs", "by_chrom_runs", "csv_rows_judged", "digit_in_tag_name", "mixed_case_sequences"]
 
 
 SIDE_L = {"+": 1, "-": 0}
@@ -88,6 +88,11 @@ def decorate(g, rng, sit, s_tags=True):
                     sit["colon_in_Z_value"] += 1
                 if p[0][1].isdigit():
                     sit["digit_in_tag_name"] += 1
+    if rng.random() < 0.4:  # soft-masked / ambiguous bases are valid GFA sequence characters
+        for n in g.nodes.values():
+            if rng.random() < 0.5:
+                n.seq = "".join(c.lower() if rng.random() < 0.5 else (c if rng.random() < 0.9 else "N") for c in n.seq)
+        sit["mixed_case_sequences"] += 1
     seen = set()
     for l in g.links:
         r = rng.random()
